@@ -56,3 +56,5 @@ Definition var_prefix (c : config) : string :=
 
 (** Every replacement name the configuration can make the rewriter emit. *)
 Definition configured_dsts (c : config) : list string := map m_dst (c_methods c).
+Definition configured (c : config) (name : string) : bool :=
+  existsb (String.eqb name) (configured_dsts c).
